@@ -246,6 +246,15 @@ def run(chk):
             chk.fail("WCCN depends on the order of the samples", ctx)
         if not close(np.asarray(WCCN().fit(Xw, cw[yw]).weights), W0):
             chk.fail("WCCN depends on a permutation of the class ids", ctx)
+        # ... also when the class centres lie 1e6 within-class standard deviations apart (client ids far apart in feature space): the within-class
+        # scatter is formed from within-class differences, so the order of the samples only matters at rounding level
+        Xfar = Xw + 1e6 * np.array([[1.0, -2.0], [0.0, 3.0], [-4.0, 1.0]])[yw]
+        Wf0 = np.asarray(WCCN().fit(Xfar, yw).weights)
+        Wf1 = np.asarray(WCCN().fit(Xfar[pw], yw[pw]).weights)
+        chk.count(1, key=("perm", "WCCN, far-apart classes"))
+        if not np.allclose(Wf1, Wf0, rtol=1e-6, atol=1e-8 * np.abs(Wf0).max()):
+            chk.fail("WCCN with class centres 1e6 within-class standard deviations apart depends on the order of the samples (largest relative change %.3g)"
+                     % float(np.abs(Wf1 - Wf0).max() / np.abs(Wf0).max()), dict(ctx, Xw=hexlist(Xfar), yw=[int(q) for q in yw], perm=[int(q) for q in pw]))
         # ---- seeded string initialisers draw rows by index: the seeded k-means model depends on the row order (known finding D12)
         for how in ("random", "k-means||"):
             a = np.array(KMeansMachine(K, init_method=how, random_state=seed, max_iter=0).fit(X).centroids_)
